@@ -1,6 +1,6 @@
 """C19 — Arbitrary for Piecewise<T> only returns well-formed functions and never panics."""
 from .common import *
-from ..terms import sym, term_str, TRUE, FALSE
+from ..terms import sym, term_str, subterms, TRUE, FALSE
 from ..values import *
 
 LEVEL = 'proof'
@@ -14,9 +14,16 @@ EXPLANATION = ('the Ok alternative of the value-numbered result is guarded by (e
 
 
 def conj(t, out):
+    """conjuncts of a boolean term, pushing negations through disjunctions (¬(a ∨ b) = ¬a ∧ ¬b)"""
+    from ..terms import mk_not
     if isinstance(t, tuple) and t[0] == 'and':
         conj(t[1], out)
         conj(t[2], out)
+    elif isinstance(t, tuple) and t[0] == 'not' and isinstance(t[1], tuple) and t[1][0] == 'or':
+        conj(mk_not(t[1][1]), out)
+        conj(mk_not(t[1][2]), out)
+    elif isinstance(t, tuple) and t[0] == 'not' and isinstance(t[1], tuple) and t[1][0] == 'not':
+        conj(t[1][1], out)
     else:
         out.append(t)
 
@@ -56,9 +63,16 @@ def check(cx):
         whole = ('stream', 'src', ('view', Et, ('ic', 0), ('len', Et)), ('str', 'ref'))
         alls = [c for c in cj if c[0] == 'all' and c[1] == whole]
         normal = [c for c in alls if c[3] == ('isnormal', ('elem', Et, c[2], ''))]
-        rep.ob('guard', inst + ':nonempty', ne in cj, 'Ok ⇒ ' + term_str(ne), fn=inst, file=file, line=line,
+        from .boollogic import implies
+        allnormal = None
+        for t0 in subterms(g):
+            if t0[0] == 'all' and t0[1] == whole and t0[3] == ('isnormal', ('elem', Et, t0[2], '')):
+                allnormal = t0
+        ok_ne = (ne in cj) or implies(g, ne) is True
+        ok_norm = bool(normal) or (allnormal is not None and implies(g, allnormal) is True)
+        rep.ob('guard', inst + ':nonempty', ok_ne, 'Ok ⇒ ' + term_str(ne), fn=inst, file=file, line=line,
                msg='an Ok result is not guarded by a non-emptiness check of the ends')
-        rep.ob('guard', inst + ':normal', bool(normal), 'Ok ⇒ ∀ is_normal(end)' if normal else 'Ok guard: ' + term_str(g)[:300], fn=inst, file=file, line=line,
+        rep.ob('guard', inst + ':normal', ok_norm, 'Ok ⇒ ∀ is_normal(end)' if ok_norm else 'Ok guard: ' + term_str(g)[:300], fn=inst, file=file, line=line,
                msg='an Ok result is not guarded by is_normal on every end (NaN, infinite, zero or subnormal breakpoints can be returned): guard = ' + term_str(g)[:300])
         # sort
         sorts = [e for e in it.events if e['kind'] == 'sort_by' and e['fn'] == inst]
@@ -70,6 +84,10 @@ def check(cx):
             c = ev['cmp']
             a_, b_ = c[1], c[2]
             want = ('enum', ORDERING, (('fcmp', 'lt', a_, b_), 0), (('fcmp', 'eq', a_, b_), 1), (('fcmp', 'gt', a_, b_), 2))
+            # f64::total_cmp orders normal floats exactly like partial_cmp
+            want_total = ('enum', ORDERING, (('tcmp', 'lt', a_, b_), 0), (('tcmp', 'eq', a_, b_), 1), (('tcmp', 'gt', a_, b_), 2))
+            if c[3] == want_total:
+                want = want_total
             if ev['seq'] != E:
                 why = 'sort_by is applied to a different vector'
             elif not ev['whole']:
@@ -116,7 +134,8 @@ def check(cx):
                         probs.append('piece ι has end %s, expected sorted_ends[ι] verbatim' % (it.abstract(st, out.fields[0]),))
                 if isinstance(seq, SeqScan):
                     allok = [c for c in cj if c[0] == 'all' and c[2] == seq.ivar]
-                    if not allok:
+                    # a loop that leaves the function as soon as a piece fails never reaches the Ok return
+                    if not allok and seq.err is None:
                         probs.append('Ok is returned although a piece failed to generate')
         rep.ob('pipe', inst, not probs, '; '.join(probs) or 'segments[ι] = Segment{end: sorted[ι], poly: T::arbitrary()?}; same length and order',
                fn=inst, file=file, line=line, msg='piece pipeline: ' + '; '.join(probs))
@@ -125,7 +144,7 @@ def check(cx):
         for sx in it.sites:
             if sx['cond'] == TRUE or sx['known'] is True:
                 continue
-            if sx['kind'] == 'unwrap' and sx.get('in_sort_cmp') is not None and sx['cond'] == ('not', ('unord', sx['in_sort_cmp'][0], sx['in_sort_cmp'][1])):
+            if sx['kind'] in ('unwrap', 'expect') and sx.get('in_sort_cmp') is not None and sx['cond'] == ('not', ('unord', sx['in_sort_cmp'][0], sx['in_sort_cmp'][1])):
                 continue
             bad.append('%s at line %s: %s' % (sx['kind'], sx['line'], term_str(sx['cond'])[:120]))
         rep.ob('nopanic', inst, not bad, '; '.join(bad) or 'only panic-capable site is the comparator unwrap (discharged above)', fn=inst, file=file, line=line,
